@@ -1,0 +1,30 @@
+//go:build verif
+
+// Contracts for package rel, read by /verif/engine (govc). This file contains comments only;
+// it is compiled only with -tags verif and adds no code.
+package rel
+
+// ---- String (value_set_str.go) ----------------------------------------------------------------
+
+//@ func (String).index(s; pos)
+//@   tags C10
+//@   pure
+//@   ensures result == ((0 <= pos - s.offset && pos - s.offset <= len(s.s)) ? pos - s.offset : -1)
+
+//@ func (String).Count(s)
+//@   tags C10
+//@   pure
+//@   ensures result == len(s.s) - s.holes
+
+//@ func (String).with(s; at, char)
+//@   tags C10
+//@   assigns fresh-only
+//@   requires validString(s)
+
+//@ func NewOffsetString(s, offset)
+//@   tags C10
+//@   assigns nothing
+
+//@ func asString(values)
+//@   tags C10
+//@   assigns fresh-only
